@@ -652,6 +652,13 @@ def f4_defs(tier):
     t = T(action="core.echo", input={"message": "<% item() %>"})
     t["with"] = {"items": "<% ctx(xs) %>", "concurrency": 2}
     out.append(("items-after-prep", WF({"prep": T([N(S, "t")]), "t": t}, input=["xs", "k"]), {"xs": [0, 1], "k": 2}))
+    # a with-items task whose failure is remediated (its entry lingers in staging) beside a join that
+    # is left partial when the items task takes its failure branch
+    t = T([N(S, "b"), N(F, "c")], action="core.echo", input={"message": "<% item() %>"})
+    t["with"] = {"items": "<% ctx(xs) %>"}
+    out.append(("items-remediated-beside-partial-join", WF({
+        "t0": T([N(None, ["t", "a"])]), "t": t, "a": T([N(S, "j")]), "b": T([N(S, "j")]), "c": T(),
+        "j": T(join="all")}, input=["xs", "k"]), {"xs": [0, 1], "k": 2}))
     # repeated item values
     t = T(action="core.echo", input={"message": "<% item() %>"})
     t["with"] = {"items": "<% ctx(xs) %>", "concurrency": 2}
@@ -1042,7 +1049,7 @@ def fixed_outcome_scenarios(base, uniq=False, max_full=5):
     return out
 
 
-BIG_PATTERNS = ("items-n4-k2-window", "fanin-skipped-conditional", "fanout-join-and-task", "retry-on-join1", "loop-forkjoin", "dict-two-terminals",
+BIG_PATTERNS = ("items-n4-k2-window", "items-remediated-beside", "fanin-skipped-conditional", "fanout-join-and-task", "retry-on-join1", "loop-forkjoin", "dict-two-terminals",
                 "fork-nojoin-publish", "split-nested", "fanin-in-split", "-m3-", "-m4-", "fj3-tail", "fj-two-level", "items-n4", "items-n3-knone",
                 "items-n3-k4", "-l2", "-tail", "two-joins", "cleanup-par", "fanin-remediated", "-j1-", "split-2",
                 "decide-merge", "fanin-parallel-edges")
